@@ -100,4 +100,14 @@ def plain (rows : List (Nat × Cells)) : Bool :=
     | some a => !(splitWs a).contains (const "TABLE_LIST")
     | none => true
 
+/-- the rows of the sheet as the row loop sees them: numbered from 2, table-list expanded -/
+def sheetRows (rows : List Cells) : List (Nat × Cells) := (expand .off (number 2 rows)).1
+
+/-- the structural pipeline with table-list groups: expansion, `prep` (type dealiased, `parameters` taken
+    out), `Rows.formOutN`; the flag of the expansion rejects -/
+def formOutT (root : Str) (lists : List Str) (rows : List Cells) (settings : Cells) : Except FormErr FormOut :=
+  match formOutN root lists ((sheetRows rows).map fun nr => (nr.1, (prep nr.2).1)) settings with
+  | .error e => .error e
+  | .ok o => if (expand .off (number 2 rows)).2 then .error (.err (.row 0 (.other (k!"table-list")))) else .ok o
+
 end Pyxv.TableList
